@@ -32,11 +32,12 @@ MinOver(f(_), S) == IF S = {} THEN Inf ELSE LET x == CHOOSE y \in S : TRUE IN Mi
 RECURSIVE Relax(_, _, _, _, _, _)
 Relax(dir, e, s, dist, k, n) ==
    IF k = 0 THEN dist
-   ELSE LET nd == [t \in Vs(n) |-> LET inc == {u \in Vs(n) : t \in Succ(dir, e, u, n) /\ dist[u] < Inf}
-                                       via(u) == dist[u] + Wt(u, t) IN Min2(dist[t], MinOver(via, inc))]
-        IN Relax(dir, e, s, nd, k - 1, n)
+   \* (TLCEval: TLC evaluates function constructors lazily; without it every round re-evaluates all earlier rounds)
+   ELSE LET nd == TLCEval([t \in Vs(n) |-> LET inc == {u \in Vs(n) : t \in Succ(dir, e, u, n) /\ dist[u] < Inf}
+                                       via(u) == dist[u] + Wt(u, t) IN Min2(dist[t], MinOver(via, inc))])
+        IN IF nd = dist THEN dist ELSE Relax(dir, e, s, nd, k - 1, n)          \* (a fixed point is final)
 WDistFrom(dir, e, s, n) == Relax(dir, e, s, [t \in Vs(n) |-> IF t = s THEN 0 ELSE Inf], n, n)
-WDistMat(dir, e, n) == [s \in Vs(n) |-> [t \in Vs(n) |-> LET d == WDistFrom(dir, e, s, n)[t] IN IF d >= Inf THEN -1 ELSE d]]
+WDistMat(dir, e, n) == [s \in Vs(n) |-> LET D == TLCEval(WDistFrom(dir, e, s, n)) IN [t \in Vs(n) |-> IF D[t] >= Inf THEN -1 ELSE D[t]]]
 \* number of simple paths from s to t (s # t)
 RECURSIVE NPaths(_, _, _, _, _, _)
 RECURSIVE SumOver(_, _)
@@ -60,18 +61,31 @@ Masks(n) == (SUBSET Vs(n)) \ {{}}
 \* queries are observers: a graph object answers every query as a function of its edges alone, whatever was asked before.
 \* The adapter replays each order ("w": weighted, "u": hop-count shortest paths) on ONE object per order.
 QueryOrders == {<<"w", "u", "w">>, <<"u", "w", "u">>, <<"w", "w", "u">>, <<"u", "u", "w">>}
-OutU(n, e) == [kind |-> "ug", n |-> n, edges |-> e, cyc |-> HasCycleU(e, n), tree |-> (~HasCycleU(e, n) /\ Cardinality(e) = n - 1),
+\* Prim's algorithm (scales to the random graphs; PrimIsMST checks it against the minimum over ALL spanning trees on small graphs)
+RECURSIVE Prim(_, _, _, _)
+Prim(e, inT, w, n) == IF inT = Vs(n) THEN w
+                      ELSE LET cross == {p \in e : (p[1] \in inT) # (p[2] \in inT)} IN
+                           IF cross = {} THEN -1
+                           ELSE LET m == CHOOSE p \in cross : \A q \in cross : Wt(p[1], p[2]) <= Wt(q[1], q[2]) IN
+                                Prim(e, inT \cup {m[1], m[2]}, w + Wt(m[1], m[2]), n)
+PrimWeight(e, n) == Prim(e, {0}, 0, n)
+\* big = TRUE (random graphs above the exhaustive scope): the given masks only, no path counting, Prim instead of all trees
+OutUx(n, e, M, big) ==
+              [kind |-> "ug", n |-> n, edges |-> e, cyc |-> HasCycleU(e, n), tree |-> (~HasCycleU(e, n) /\ Cardinality(e) = n - 1),
                iso |-> IsolatedU(e, n), nbr |-> [v \in Vs(n) |-> SuccU(e, v, n)],
-               dist |-> DistMat(FALSE, e, n), wdist |-> WDistMat(FALSE, e, n), npaths |-> PathCount(FALSE, e, n),
-               mst |-> IF IsolatedU(e, n) # {} THEN -2 ELSE MSTWeight(e, n), orders |-> QueryOrders,
-               masks |-> [m \in Masks(n) |-> Induced(e, m)]]
+               dist |-> DistMat(FALSE, e, n), wdist |-> WDistMat(FALSE, e, n), npaths |-> IF big THEN <<>> ELSE PathCount(FALSE, e, n),
+               mst |-> IF IsolatedU(e, n) # {} THEN -2 ELSE IF big THEN PrimWeight(e, n) ELSE MSTWeight(e, n), orders |-> QueryOrders,
+               masks |-> [m \in M |-> Induced(e, m)]]
+OutU(n, e) == OutUx(n, e, Masks(n), FALSE)
 \* ---- directed ----------------------------------------------------------------------------------
 HasCycleD(e, n) == \E v \in Vs(n) : v \in ReachFrom(TRUE, e, SuccD(e, v, n), n)
 IsolatedD(e, n) == {v \in Vs(n) : SuccD(e, v, n) = {} /\ PredD(e, v, n) = {}}
-OutD(n, e) == [kind |-> "dg", n |-> n, edges |-> e, cyc |-> HasCycleD(e, n), iso |-> IsolatedD(e, n),
+OutDx(n, e, M, big) ==
+              [kind |-> "dg", n |-> n, edges |-> e, cyc |-> HasCycleD(e, n), iso |-> IsolatedD(e, n),
                children |-> [v \in Vs(n) |-> SuccD(e, v, n)], parents |-> [v \in Vs(n) |-> PredD(e, v, n)],
-               dist |-> DistMat(TRUE, e, n), wdist |-> WDistMat(TRUE, e, n), npaths |-> PathCount(TRUE, e, n), orders |-> QueryOrders,
-               masks |-> [m \in Masks(n) |-> Induced(e, m)]]
+               dist |-> DistMat(TRUE, e, n), wdist |-> WDistMat(TRUE, e, n), npaths |-> IF big THEN <<>> ELSE PathCount(TRUE, e, n), orders |-> QueryOrders,
+               masks |-> [m \in M |-> Induced(e, m)]]
+OutD(n, e) == OutDx(n, e, Masks(n), FALSE)
 \* ---- rooted trees: parent function over the non-root vertices --------------------------------------
 TreeEdges(n, root, par) == {<<par[v], v>> : v \in Vs(n) \ {root}}
 ValidTree(n, root, par) == /\ \A v \in Vs(n) \ {root} : par[v] # v
@@ -86,6 +100,13 @@ TreeMask(n, root, par, m) ==
             keep == ReachFrom(TRUE, ind, {root}, n) \cap m
         IN IF Cardinality(keep) < 2 THEN [err |-> TRUE, keep |-> {}, edges |-> {}, root |-> -1]     \* a one-vertex tree cannot be represented
            ELSE [err |-> FALSE, keep |-> keep, edges |-> Induced(e, keep), root |-> Renum(keep, root)]
+OutTx(n, root, par, M) == LET e == TreeEdges(n, root, par) IN
+              [kind |-> "tree", n |-> n, root |-> root, edges |-> e,
+               parent |-> [v \in Vs(n) |-> IF v = root THEN -1 ELSE par[v]],
+               depth |-> [v \in Vs(n) |-> Depth(root, par, v)],
+               children |-> [v \in Vs(n) |-> SuccD(e, v, n)],
+               leaves |-> {v \in Vs(n) : SuccD(e, v, n) = {}},
+               masks |-> [m \in M |-> TreeMask(n, root, par, m)]]
 OutT(n, root, par) == LET e == TreeEdges(n, root, par) IN
               [kind |-> "tree", n |-> n, root |-> root, edges |-> e,
                parent |-> [v \in Vs(n) |-> IF v = root THEN -1 ELSE par[v]],
@@ -97,8 +118,18 @@ OutT(n, root, par) == LET e == TreeEdges(n, root, par) IN
 UCases == UNION {{[kind |-> "ug", n |-> n, e |-> e, root |-> 0, par |-> <<>>] : e \in SUBSET UPairs(n)} : n \in 1..NU}
 DCases == UNION {{[kind |-> "dg", n |-> n, e |-> e, root |-> 0, par |-> <<>>] : e \in SUBSET DPairs(n)} : n \in 1..ND}
 TCases == UNION {UNION {{[kind |-> "tree", n |-> n, e |-> {}, root |-> r, par |-> p] : p \in {q \in [Vs(n) -> Vs(n)] : q[r] = r /\ ValidTree(n, r, q)}} : r \in Vs(n)} : n \in 2..NT}
-Cases == (IF "ug" \in Kinds THEN UCases ELSE {}) \cup (IF "dg" \in Kinds THEN DCases ELSE {}) \cup (IF "tree" \in Kinds THEN TCases ELSE {})
-Out(c) == CASE c.kind = "ug" -> OutU(c.n, c.e) [] c.kind = "dg" -> OutD(c.n, c.e) [] OTHER -> OutT(c.n, c.root, c.par)
+\* random graphs above the exhaustive scope: drawn by the harness (seeded) and read from a file; the same declarative definitions
+RndIn == IF "rnd" \in Kinds THEN JsonDeserialize(IOEnv.TRACE_FILE) ELSE <<>>
+SeqSet(q) == {q[i] : i \in 1..Len(q)}
+RndCases == {[kind |-> "rnd", idx |-> i] : i \in 1..Len(RndIn)}
+OutRnd(i) == LET r == RndIn[i]
+                 e == {<<p[1], p[2]>> : p \in SeqSet(r.edges)}
+                 M == {SeqSet(m) : m \in SeqSet(r.masks)} IN
+             CASE r.kind = "ug" -> OutUx(r.n, e, M, TRUE)
+               [] r.kind = "dg" -> OutDx(r.n, e, M, TRUE)
+               [] OTHER -> OutTx(r.n, r.root, [v \in Vs(r.n) |-> r.par[v + 1]], M \ {Vs(r.n)})
+Cases == (IF "rnd" \in Kinds THEN RndCases ELSE {}) \cup (IF "ug" \in Kinds THEN UCases ELSE {}) \cup (IF "dg" \in Kinds THEN DCases ELSE {}) \cup (IF "tree" \in Kinds THEN TCases ELSE {})
+Out(c) == CASE c.kind = "rnd" -> OutRnd(c.idx) [] c.kind = "ug" -> OutU(c.n, c.e) [] c.kind = "dg" -> OutD(c.n, c.e) [] OTHER -> OutT(c.n, c.root, c.par)
 Init == g \in Cases /\ done = FALSE
 Next == done = FALSE /\ done' = TRUE /\ g' = g /\ CSVWrite("%1$s", <<ToJson(Out(g))>>, IOEnv.OUT_FILE)
 Spec == Init /\ [][Next]_<<g, done>>
@@ -117,4 +148,6 @@ TreeIffUnique == g.kind = "ug" => ((~HasCycleU(g.e, g.n) /\ NComp(g.e, g.n) = 1)
 TreeDepthIsDistance == g.kind = "tree" =>
    LET e == TreeEdges(g.n, g.root, g.par) IN
    \A v \in Vs(g.n) : Depth(g.root, g.par, v) = DistMat(TRUE, e, g.n)[g.root][v] /\ PathCount(TRUE, e, g.n)[g.root][v] = 1
+\* Prim's weight is the minimum over all spanning trees (so it may stand in for it on the random graphs)
+PrimIsMST == g.kind = "ug" => (NComp(g.e, g.n) = 1 => PrimWeight(g.e, g.n) = MSTWeight(g.e, g.n))
 =======================================================================
